@@ -365,6 +365,12 @@ def configs(rng, quick, terminals):
                         "opts": {"num_iter": 40, "formulation": "pressure", "linear_solver": "direct", "L": 1.0 if method == "bregman" else 1e-2,
                                  "tol_distance": 1e-4, "verbose": verbose},
                         "mass": "dense", "mseed": 4242, "fault": None, "adaptive": False, "weight": None})
+    # nearly identical distributions on a large common background: the mass balance is that of the small difference
+    for method in ("newton", "bregman"):
+        for (form, ls) in (("pressure", "direct"), ("full", "direct")):
+            out.append({"shape": [4, 3], "h": [0.5, 0.25], "method": method, "l1": rng.choice(l1s), "mob": rng.choice(mobs),
+                        "opts": {"num_iter": 6, "formulation": form, "linear_solver": ls, "L": 1.0 if method == "bregman" else 1e-2},
+                        "mass": "near", "mseed": rng.randrange(10 ** 6), "fault": None, "adaptive": False, "weight": None})
     # the recorded instance of that defect (thorough tier, seed 0), ending right after the perturbed iterate
     for ni, fault in ((2, None), (6, 2)):
         out.append({"shape": [1, 5], "h": [0.1, 0.3], "method": "newton", "l1": "CONSTANT_SUBCELL_PROJECTION", "mob": "CELL_BASED",
